@@ -24,7 +24,7 @@ def _install_classifier():
     return orig
 
 def classify(case_line):
-    tags = case_line.get("tags", [])
+    tags = case_line.get("tags") or []
     if (_SCRATCH_CLASS.get(case_line.get("coq")) and "variant:scratch-bit-unfixed" in tags
             and any(t in tags for t in ("posblocks:3", "posblocks:4"))):
         return "scratch-bit-third-positive-block"
